@@ -10,7 +10,7 @@ TIMEOUT = 600
 RULE = ('per case one CheckCommand + Host (+ Service) built from config text with custom variables on service/host/command level, '
         'values over an alphabet weighted to quote, double quote, backslash, space, newline, tab, $, ;, |, &, backtick, *, ~, <, >, (, ), #, UTF-8 multibyte; '
         'families: array command lines with 0-8 argument definitions over every combination of value/key/set_if/skip_key/repeat_key/separator/required/order '
-        '(scalars, arrays, dictionaries, missing macros, $$), string command lines run through the real /bin/sh, custom-variable recursion chains of depth 0-18 and loops, '
+        '(scalars, arrays, dictionaries, missing macros, $$), 17-40 argument definitions with pairwise distinct order, custom variables named "" next to $$, string command lines run through the real /bin/sh, custom-variable recursion chains of depth 0-18 and loops, '
         'shadowing and dotted names over all resolver levels, plugin exit statuses 0-255 and death by signal, plugin outputs with 0-3 "|" and "=" per line over several lines, '
         'Utility::EscapeShellArg on raw values, one timeout kill; non-trivial = the case resolves at least one macro or maps a plugin result; distinct = distinct script text')
 TRUSTED = ['model: coq/Macro/MxModel.v (transcription of macroprocessor.cpp 88-192, 232-339, 22-76, 407-585; utility.cpp EscapeShellArg; '
@@ -18,7 +18,7 @@ TRUSTED = ['model: coq/Macro/MxModel.v (transcription of macroprocessor.cpp 88-1
            'POSIX sh word splitting / quote removal is modelled only for blanks, characters without special meaning, single quotes and backslash '
            '(coq/Macro/MxModel.v mx_sh_step) and is compared with the real /bin/sh on every string-command case',
            'harness/recplug.c (records argv), harness/ops_mx.cpp, ocaml/ops_mx.ml',
-           'std::sort over the argument definitions is modelled as a stable sort (exact for libstdc++ up to 16 definitions; generators stay below)']
+           'std::sort over the argument definitions is modelled as a stable sort: exact for libstdc++ up to 16 definitions, and for any number of definitions with pairwise distinct `order` (C09_sort_unique: every sorted permutation is then this one); generators produce up to 12 definitions with ties and 17-40 definitions with distinct orders']
 ASSUMPTIONS = ['macro values are NUL-free byte strings (a C string cannot carry NUL); numbers are integers',
                'Function-valued commands/arguments, the resolvedMacros cache of remote execution, and the config-writer text of arrays/dictionaries used inside a string are not modelled',
                'set_if strings are modelled for plain decimal notation (optional sign, digits, optional fraction); exponent notation, inf and nan are neither modelled nor generated',
@@ -164,6 +164,9 @@ def populate(c, rnd, nvars=None):
             if rnd.random() < 0.15:
                 c.var(rnd.choice(('host', 'svc', 'cmd')), nm, s_spec(rvalue(rnd, False)))
     names['missing'] = ['q_miss_%d' % rnd.randint(0, 3)]
+    if rnd.random() < 0.06:
+        # a custom variable named "" must not disturb $$ (fixed finding dollar-empty-var)
+        c.var(rnd.choice(('host', 'svc', 'cmd')), '', s_spec(rvalue(rnd, False)))
     if rnd.random() < 0.5:
         c.lines.append('mx_attr lvl=host name=address v=%s' % hx(rvalue(rnd, True)))
         names['str'].append('address')
@@ -425,12 +428,39 @@ def case_exit_map():
 
 
 def case_finding(rnd):
-    """custom variable named "" : $$ no longer yields a dollar sign (recorded finding dollar-empty-var)"""
+    """custom variable named "" next to $$ : regression guard for the fixed finding dollar-empty-var (4feca083);
+    the variable itself stays reachable as $host.vars.$ / $service.vars.$ / $command.vars.$"""
     c = Case('empty-named-variable')
-    c.var(rnd.choice(('host', 'svc', 'cmd')), '', s_spec(rvalue(rnd, False)))
-    c.var('host', 'q_ok', s_spec('fine'))
+    lv = rnd.choice(('host', 'svc', 'cmd'))
+    c.var(lv, '', s_spec(rvalue(rnd, False)))
+    c.var('host', 'q_ok', s_spec(rnd.choice(('fine', 'a$$b'))))
     c.lines += ['mx_cmd kind=arr', 'mx_cel v=%s' % hx(RECPLUG), 'mx_cel v=%s' % hx(rnd.choice(('$$', 'cost: 5$$', '$q_ok$'))),
+                'mx_cel v=%s' % hx('$%s.vars.$' % {'host': 'host', 'svc': 'service', 'cmd': 'command'}[lv]),
                 'mx_arg name=%s dict=1 val=%s' % (hx('-p'), hx(rnd.choice(('$$', '$q_ok$$$')))), 'mx_resolve svc=1']
+    return c.done()
+
+
+def case_many_args(rnd):
+    """more than 16 argument definitions (libstdc++ std::sort leaves insertion sort there): all `order` values
+    distinct, so that the result of ANY correct sort is determined (C09_sort_unique)"""
+    c = Case('more-than-16-arguments')
+    names = populate(c, rnd, nvars=4)
+    n = rnd.randint(17, 40)
+    orders = rnd.sample(range(-50, 50), n)
+    c.lines += ['mx_cmd kind=arr', 'mx_cel v=%s' % hx(RECPLUG)]
+    for i in range(n):
+        parts = ['mx_arg name=%s dict=1 order=%d' % (hx('-m%02d' % i), orders[i])]
+        r = rnd.random()
+        if r < 0.7:
+            parts.append('val=%s' % hx(template(rnd, names, ('str', 'str', 'num', 'arr', 'missing'))))
+        if rnd.random() < 0.2:
+            parts.append('skip=1')
+        if rnd.random() < 0.2:
+            parts.append('sep=%s' % hx('='))
+        if rnd.random() < 0.2:
+            parts.append('rep=0')
+        c.lines.append(' '.join(parts))
+    c.lines.append('mx_resolve svc=%d' % rnd.randint(0, 1))
     return c.done()
 
 
@@ -454,11 +484,13 @@ def generate(seed, tier):
         cases.append(case_recursion(rnd))
     for _ in range(200 * k):
         cases.append(case_levels(rnd))
+    for _ in range(80 * k):
+        cases.append(case_many_args(rnd))
     for ex in range(256):
         cases.append(case_exit_exec(rnd, ex))
     for _ in range(60 * k):
         cases.append(case_pure(rnd, tier))
-    for _ in range(6):
+    for _ in range(12 * k):
         cases.append(case_finding(rnd))
     return cases
 
@@ -473,7 +505,7 @@ def nontrivial(case, impl_lines):
 def classify(case, detail, impl_lines):
     if 'crash' in detail or 'missing-observation' in detail:
         return 'crash'
-    for key in ('dollar-empty-var', 'exit-map', 'failure-not-unknown', 'argv-through-sh', 'escape', 'perfdata', 'output', 'argv', 'shell-string', 'failure'):
+    for key in ('exit-map', 'failure-not-unknown', 'argv-through-sh', 'escape', 'perfdata', 'output', 'argv', 'shell-string', 'failure'):
         if key in detail:
             return key
     return 'other'
